@@ -233,6 +233,30 @@ func c12cases(r *vh.Run) []c12case {
 			}
 		}
 	}
+	// (b1) operand tuples from a boundary alphabet (byte string + extreme integers) followed by every opcode:
+	// index/count/offset arithmetic near the int64 limits (SUBSTR, LEFT, RIGHT, PICK, ROLL, SETITEM, shifts ...)
+	operands := []c12shape{
+		{"bytes6", c12pushBytes([]byte("aaabbb"))},
+		{"i0", []byte{byte(neovm.PUSH0)}}, {"i1", []byte{byte(neovm.PUSH1)}}, {"i-1", []byte{byte(neovm.PUSHM1)}}, {"i6", []byte{byte(neovm.PUSH6)}},
+		{"maxint64", c12pushBytes([]byte{0xff, 0xff, 0xff, 0xff, 0xff, 0xff, 0xff, 0x7f})},
+		{"minint64", c12pushBytes([]byte{0, 0, 0, 0, 0, 0, 0, 0x80})},
+		{"2^63", c12pushBytes([]byte{0, 0, 0, 0, 0, 0, 0, 0x80, 0})},
+		{"2^31", c12pushBytes([]byte{0, 0, 0, 0x80, 0})},
+		{"arr3", []byte{byte(neovm.PUSH3), byte(neovm.NEWARRAY)}},
+	}
+	for _, a := range operands {
+		for _, b := range operands {
+			for o := 0; o < 256; o++ {
+				cs = append(cs, c12case{fam: "operands-op", desc: fmt.Sprintf("%s,%s op %02x", a.name, b.name, o), pre: append(append([]byte{}, a.code...), b.code...), code: []byte{byte(o)}})
+			}
+			for _, c := range operands {
+				pre := append(append(append([]byte{}, a.code...), b.code...), c.code...)
+				for o := 0; o < 256; o++ {
+					cs = append(cs, c12case{fam: "operands-op", desc: fmt.Sprintf("%s,%s,%s op %02x", a.name, b.name, c.name, o), pre: pre, code: []byte{byte(o)}})
+				}
+			}
+		}
+	}
 	// (b2) self-referencing / deep values as the ARGUMENT of a native call, of Storage.Put and as notify payload inside an array
 	for _, sh := range shapes {
 		if !strings.HasPrefix(sh.name, "self-") && !strings.HasPrefix(sh.name, "mutual") && !strings.HasPrefix(sh.name, "nested") && sh.name != "shared" && sh.name != "map-1-then-self" {
@@ -342,6 +366,9 @@ func c12key(fam, desc, what string) string {
 	case "shape-op":
 		f := strings.Fields(desc)
 		cls = f[0] + ":op" + f[len(f)-1]
+	case "operands-op":
+		f := strings.Fields(desc)
+		cls = "op" + f[len(f)-1] // the opcode is the class; the operand tuple is in the detail
 	case "shape-syscall":
 		f := strings.Fields(desc)
 		cls = f[0] + ":" + f[len(f)-1]
@@ -500,7 +527,7 @@ func TestVerif_C12(t *testing.T) {
 		if r.Expired() {
 			break
 		}
-		res := vwork.Run("TestVerif_C12_Worker", start, end, blk, 60*time.Second, nil, r.Expired)
+		res := vwork.Run("TestVerif_C12_Worker", start, end, blk, 600*time.Second, nil, r.Expired)
 		r.Eval(int64(end - start))
 		for c, n := range res.Classes {
 			r.ClassN(c, n)
